@@ -123,7 +123,7 @@ def check_mesh_on_grid(part, vol, level, spacing, direction, case, key, expect_s
                 break
             part.count("interior_vertices")
     part.dev("edge_crossing_position", worst_edge)
-    if worst_edge > 1e-5:
+    if not (worst_edge <= 1e-5):
         part.fail("vertex-not-at-crossing:%s" % key, "a vertex is %.3g (index units) away from the linear crossing point of its grid edge" % worst_edge, case)
     sv = mesh.signed_volume(verts, faces)
     sign = 1 if sv > 0 else -1
